@@ -257,6 +257,14 @@ func (c *Ctx) WriteWitness(w *Witness) string {
 		return ""
 	}
 	w.Prop, w.Tier, w.Seed = c.Prop, c.Tier, c.Seed
+	// witnesses carry clipped copies of the output streams
+	cp := make([]*Step, len(w.Steps))
+	for i, s := range w.Steps {
+		d := *s
+		d.Stdout, d.Stderr = clip([]byte(s.Stdout)), clip([]byte(s.Stderr))
+		cp[i] = &d
+	}
+	w.Steps = cp
 	for _, s := range w.Steps {
 		if s.Edit != nil && s.Edit.Data != nil {
 			s.Edit.B64 = base64.StdEncoding.EncodeToString(s.Edit.Data)
@@ -365,7 +373,7 @@ func (w *World) exec(st *Step) {
 	if st.Kind == "goit" {
 		st.Res = w.SB.Run(w.GoitBin, st.Argv, sandbox.RunOpts{TZ: st.TZ, ExtraEnv: st.Env})
 		st.Exit, st.Signal = st.Res.Exit, st.Res.Signal
-		st.Stdout, st.Stderr = clip(st.Res.Stdout), clip(st.Res.Stderr)
+		st.Stdout, st.Stderr = string(st.Res.Stdout), string(st.Res.Stderr)
 		w.C.Eval(1)
 		w.C.Count("cmd:" + st.Cmd())
 	} else {
